@@ -93,6 +93,12 @@ def check_grade_parts(res, L, rng, tag, reps=1, full_pairs=True):
         res.case(('scalar',) + key[:2] + (k,), nontrivial=nt)
         if not (common.eq(A ^ k, k * A) and common.eq(k ^ A, k * A) and common.eq(A | k, zero) and common.eq(k | A, zero)):
             res.violate('scalar operand conventions of ^ and | are wrong', dict(inp, k=k), None, None, dict(site, op='scalar'))
+        # left contraction onto a scalar: only the scalar part of A survives (grade s-r with s = 0)
+        for kk in (k, float(k) + 0.5, np.int64(k)):
+            exp_lc = kk * G(L, A, 0)
+            if not (np.array_equal((A << kk).value, exp_lc.value) and np.array_equal(A.lc(kk).value, exp_lc.value)):
+                res.violate('A << scalar is not the grade (0 - r) part: only the scalar part of A may survive', dict(inp, k=repr(kk)), (A << kk).value.tolist(),
+                            exp_lc.value.tolist(), dict(site, op='lc-scalar'))
         import clifford.operator as cop2
         if not (common.eq(cop2.op(A, k), k * A) and common.eq(cop2.gp(k, A), k * A) and common.eq(cop2.ip(A, k), zero)):
             res.violate('clifford.operator functions with scalar operands are wrong', dict(inp, k=k), None, None, dict(site, op='operator-scalar'))
